@@ -33,9 +33,26 @@ fn px(i: &Inner) -> &u64 {
 fn py(i: &Inner) -> &u64 {
     &i.y
 }
+fn pid(x: &u64) -> &u64 {
+    x
+}
+fn parc(a: &Arc<Cfg>) -> &Arc<Cfg> {
+    a
+}
 
 /// one observation: the value seen through a guard at creation, after each of `n` later stores,
 /// on another thread, and the value a fresh load sees afterwards
+/// overwrite the stack below the caller (a guard must not depend on dead frames)
+#[inline(never)]
+fn clobber(seed: u64) -> u64 {
+    let mut a = [0u64; 768];
+    for (i, x) in a.iter_mut().enumerate() {
+        *x = seed.wrapping_mul(0x9e37_79b9_7f4a_7c15).wrapping_add(i as u64) | 1;
+    }
+    std::hint::black_box(&mut a);
+    a.iter().fold(0u64, |s, x| s.wrapping_add(*x))
+}
+
 fn observe<A, F>(out: &mut Vec<String>, shape: &str, chain: &str, shared: &Arc<ArcSwap<Cfg>>, acc: A, show: F, k0: u64, stores: u64)
 where
     A: Access<F::In>,
@@ -43,10 +60,15 @@ where
     F: Show,
 {
     let g = acc.load();
-    let mut seen = vec![show.show(&g)];
+    std::hint::black_box(clobber(k0));
+    // the guard is moved (boxed), as a caller may do
+    let g = Box::new(g);
+    std::hint::black_box(clobber(k0 + 1));
+    let mut seen = vec![show.show(&*g)];
     for s in 1..=stores {
         shared.store(Arc::new(cfg(k0 + s)));
-        seen.push(show.show(&g));
+        std::hint::black_box(clobber(k0 + s));
+        seen.push(show.show(&*g));
     }
     let fresh = {
         let g2 = acc.load();
@@ -82,6 +104,14 @@ impl Show for ShowCfg {
     }
 }
 
+struct ShowArcCfg;
+impl Show for ShowArcCfg {
+    type In = Arc<Cfg>;
+    fn show<G: std::ops::Deref<Target = Arc<Cfg>>>(&self, g: &G) -> String {
+        format!("(({} {}) {})", g.a.x, g.a.y, g.b)
+    }
+}
+
 pub fn run(seed: u64, count: usize) -> Vec<String> {
     let mut rng = Rng::new(seed ^ 0xacce55);
     let mut out = vec![];
@@ -90,7 +120,14 @@ pub fn run(seed: u64, count: usize) -> Vec<String> {
         let stores = rng.range(0, 4) as u64;
         let shared = Arc::new(ArcSwap::from_pointee(cfg(k0)));
         let sh = &shared;
-        match rng.range(0, 14) {
+        let pick = rng.range(0, 20);
+        // lines are printed as they are produced, and the attempt is announced first: a guard
+        // that reads through a dangling pointer may take the process down
+        for l in out.drain(..) {
+            println!("{}", l);
+        }
+        eprintln!("try pick={} k0={} stores={}", pick, k0, stores);
+        match pick {
             0 => observe(&mut out, "direct", "", sh, &**sh, ShowCfg, k0, stores),
             1 => observe(&mut out, "arc", "", sh, Arc::clone(sh), ShowCfg, k0, stores),
             2 => observe(&mut out, "map1", "fst", sh, Map::new(&**sh, pa as fn(&Cfg) -> &Inner), ShowInner, k0, stores),
@@ -115,6 +152,16 @@ pub fn run(seed: u64, count: usize) -> Vec<String> {
                 observe(&mut out, "convert", "snd", sh, AccessConvert(d), ShowNum, k0, stores)
             }
             10 => observe(&mut out, "constant", "const", sh, Constant(k0), ShowNum, k0, stores),
+            // projections into what the inner guard holds inline (a Constant's own copy, the Arc itself)
+            14 => observe(&mut out, "map-const", "fst", sh, Map::new(Constant(cfg(k0)), pa as fn(&Cfg) -> &Inner), ShowInner, k0, stores),
+            15 => observe(&mut out, "map-const", "snd", sh, Map::new(Constant(cfg(k0)), pb as fn(&Cfg) -> &u64), ShowNum, k0, stores),
+            16 => observe(&mut out, "map-const", "id", sh, Map::new(Constant(k0), pid as fn(&u64) -> &u64), ShowNum, k0, stores),
+            17 => observe(&mut out, "map2-const", "fst.snd", sh, Map::new(Map::new(Constant(cfg(k0)), pa as fn(&Cfg) -> &Inner), py as fn(&Inner) -> &u64), ShowNum, k0, stores),
+            18 => {
+                let d: Box<dyn DynAccess<Inner>> = Box::new(Map::new(Constant(cfg(k0)), pa as fn(&Cfg) -> &Inner));
+                observe(&mut out, "dyn-map-const", "fst", sh, d, ShowInner, k0, stores)
+            }
+            19 => observe(&mut out, "map-arcself", "id", sh, Map::new(&**sh, parc as fn(&Arc<Cfg>) -> &Arc<Cfg>), ShowArcCfg, k0, stores),
             11 => {
                 // a guard moved to and dereferenced on another thread, while stores go on here
                 let m = Map::new(Arc::clone(sh), pa as fn(&Cfg) -> &Inner);
